@@ -59,13 +59,45 @@ func pkgNameOfDir(dir string) (string, error) {
 
 var harnessRe = regexp.MustCompile(`(?m)^func (zzH_(C\d\d)_\w+)\(`)
 
+// droppedHarnessFiles: hand-written harness files (real paths under /verif/harness) that do not compile
+// against the tree under analysis (a refactor removed or renamed something they call). They are left out of
+// the overlay so that the other harnesses of the package still run; the run can then no longer end "held"
+// (exit 2 unless a violation is found), see cmdRun.
+var droppedHarnessFiles = map[string]bool{}
+
+func harnessGlob(rel string) []string {
+	files, _ := filepath.Glob(filepath.Join(verifRoot, "harness", rel, "*.go"))
+	var out []string
+	for _, f := range files {
+		if !droppedHarnessFiles[f] {
+			out = append(out, f)
+		}
+	}
+	return out
+}
+
+// brokenHarnessFiles extracts the hand-written harness files named in package load errors.
+func brokenHarnessFiles(errText string) []string {
+	var out []string
+	seen := map[string]bool{}
+	re := regexp.MustCompile(`(/[^\s:]*/(pkg/[^\s:]*?)/(zz_verif_[A-Za-z0-9_]+\.go)):\d+`)
+	for _, m := range re.FindAllStringSubmatch(errText, -1) {
+		real := filepath.Join(verifRoot, "harness", m[2], m[3])
+		if _, err := os.Stat(real); err == nil && !seen[real] && !strings.HasPrefix(m[3], "zz_verif_model_") {
+			seen[real] = true
+			out = append(out, real)
+		}
+	}
+	return out
+}
+
 // harnessDirsFor returns the package dirs (relative to repo root) that contain harnesses of prop,
 // and the harness function names per dir.
 func harnessDirsFor(prop string) (map[string][]string, error) {
 	out := map[string][]string{}
 	root := filepath.Join(verifRoot, "harness")
 	err := filepath.Walk(root, func(p string, info os.FileInfo, err error) error {
-		if err != nil || info.IsDir() || !strings.HasSuffix(p, ".go") {
+		if err != nil || info.IsDir() || !strings.HasSuffix(p, ".go") || droppedHarnessFiles[p] {
 			return nil
 		}
 		raw, err := os.ReadFile(p)
@@ -123,7 +155,7 @@ func modelDirs() []string {
 // allHarnessNames lists every harness function in dir (any property), for the registry.
 func allHarnessNames(rel string, extra []string) []string {
 	var names []string
-	files, _ := filepath.Glob(filepath.Join(verifRoot, "harness", rel, "*.go"))
+	files := harnessGlob(rel)
 	files = append(files, extra...)
 	for _, f := range files {
 		raw, _ := os.ReadFile(f)
@@ -187,8 +219,7 @@ func prepareOverlay(rels []string, workDir string, extra map[string]string) (map
 		if err := write("zz_verif_registry.go", sb.String()); err != nil {
 			return nil, err
 		}
-		files, _ := filepath.Glob(filepath.Join(verifRoot, "harness", rel, "*.go"))
-		for _, f := range files {
+		for _, f := range harnessGlob(rel) {
 			ov[filepath.Join(repoDir, filepath.Base(f))] = f
 		}
 	}
